@@ -24,6 +24,8 @@ PyRtC18 — runtime library of `harness/py2lean_c18.py`, the source translator f
 2. STATEMENTS.  A Python statement list is a `Stmt σ ρ := σ → Flow ρ × σ` over the record `σ` of all Python
    variables of the method (`self` = the object state); `Flow` says how control leaves the statement.
 -/
+deriving instance DecidableEq for Except
+
 namespace PyRtC18
 open C18 (File)
 
